@@ -28,7 +28,7 @@ from smt import Q
 LEVEL = "model_checking"
 
 
-def run(ctx):
+def run(ctx, dis=True):
     q = Q(ctx, cross_every=500)
     S = parsersym.Setting()
     T = S.T
@@ -36,8 +36,9 @@ def run(ctx):
     ctx.trusted += ["Kani/CBMC (decoder, byte view)", "rustc MIR", "mirsym and its std models", "Decoder contract (C11)", "z3"]
     ctx.assumptions += ["a well-behaved consumer (does not panic itself)", "allocation failure and stack exhaustion are outside"]
     # dis/main.rs (an anchor of this property too): main's paths from MIR and the built binary on the corpus (C20's machinery)
-    import c20
-    c20.run(ctx)
+    if dis:
+        import c20
+        c20.run(ctx, library=False)
     rp = Replay()
     special = {"LiteralContextDependentNumber", "PairLiteralIntegerIdRef", "LiteralSpecConstantOpInteger", "PairIdRefLiteralInteger", "PairIdRefIdRef"}
     entries = T["core"]
